@@ -49,7 +49,7 @@ def explore(ck, hb, sets, race=False):
     for k in range(6 if not race else 10):
         j = {"id": 0, "docs": [bad_doc] + sets[k % len(sets)][:2], "n": 8, "reps": 2, "cache": k % 2 == 1, "cold": True}
         rc, r, se = vlib.harness(hb, "conc", [j], timeout=300)
-        if not r:
+        if not r or "DATA RACE" in se:
             why = "DATA RACE reported by the race detector" if "DATA RACE" in se else "process died"
             failing.append(({"docs": j["docs"], "goroutines": 8, "cache": j["cache"], "cold_start": True}, why + " (cold start): " + se[-600:]))
             continue
